@@ -1,5 +1,6 @@
 import Driver.Util
 import Capnp.Model.Read
+import Capnp.Spec.Encoding
 /-! ops of domain `read`: canonical traversal of a message through the model's accessors -/
 namespace Driver.Read
 open Capnp.Prelude Capnp.Gen Capnp.Model.Read
@@ -141,6 +142,10 @@ def run : List String → String
         let (s, ws) := walkPtr 100000 m p { rl := rl, nodes := 300 }
         if ws.panicked then "panic" else s ++ " rl=" ++ toString ws.rl
     | _, _, _ => "bad-op"
+  | ["tree", segs] =>            -- the spec's meaning of the bytes (independent decoder)
+    match parseSegs segs with
+    | some sg => Capnp.Spec.Encoding.decodeTree sg
+    | none => "bad-op"
   | ["conc", _, _, _, _] => "ok"     -- Props.C02.budget_conc: granted + remaining ≤ T on every interleaving
   | _ => "bad-op"
 
